@@ -1,34 +1,39 @@
 #!/usr/bin/env python3
-"""Writes known_findings.d/C20.json from the symptom table of evidence/C20.json (run ./check C20 first).
-The keys are <symptom>:<graph class>; only the two root causes described in DESIGN §4 C20 are accepted:
-symptoms rejected(...) and wrong-run(ModuleNotFoundError) on graphs that have a cycle of >= 2 modules.
+"""Writes known_findings.d/C20.json from the symptom table of evidence/C20.json (run ./check C20 first; run it
+after the quick AND after the thorough tier: keys already listed are kept).  Keys are <symptom>:<graph class>.
+Only the two root causes described in DESIGN §4 C20 are accepted:
+  A  a cycle of >= 2 modules through the ENTRY module: rejected(...) or wrong-run(ModuleNotFoundError)
+  B  a module other than the entry imports ITSELF and a name is read through that import at run time:
+     wrong-run(AttributeError)  (the self-import is bound to the running script's module object)
 Anything else in the evidence is printed and NOT listed (it must be triaged by hand).   cwd = /verif"""
 import json
 ev = json.load(open("evidence/C20.json"))
-non_entry, entry, other = [], [], []
-# keys already listed (e.g. from the other tier's run) are kept
+entry, selfimp, other = [], [], []
 try:
     old = json.load(open("known_findings.d/C20.json"))["findings"]
-    non_entry += old[0]["keys"]
-    entry += old[1]["keys"]
+    entry += old[0]["keys"]
+    selfimp += old[1]["keys"]
 except Exception:
     pass
 for cl, info in sorted(ev["coverage"]["graph_classes"].items()):
     for sym in info["symptoms"]:
         key = f"{sym}:{cl}"
-        has_big_cycle = "-cycle" in cl
-        if has_big_cycle and (sym.startswith("rejected(") or sym == "wrong-run(ModuleNotFoundError)"):
-            (entry if "entry-on-" in cl else non_entry).append(key)
+        if "entry-on-" in cl and (sym.startswith("rejected(") or sym == "wrong-run(ModuleNotFoundError)"):
+            entry.append(key)
+        elif "+self-import" in cl or cl.endswith(":self-import"):
+            if sym == "wrong-run(AttributeError)":
+                selfimp.append(key)
+            else:
+                other.append(key)
         else:
             other.append(key)
 kf = {"findings": [
-    {"property": "C20", "name": "import-cycle-not-containing-the-entry-module-is-rejected", "keys": sorted(set(non_entry)),
-     "witness": {"main.er": 'a_ = import "a"\nprint! "init main"\nprint! "main sees a", a_.v\n', "a.er": 'b_ = import "b"\nprint! "init a"\n.v: Int = 1\n.f_b() = b_.v\n',
-                 "b.er": 'a_ = import "a"\nprint! "init b"\n.v: Int = 2\n.f_a() = a_.v\n'},
-     "what": "a cycle of two or more modules below the entry module is rejected: the public names of the inlined cycle member are not visible (`Module(\"a.er\") object has no attribute v`)"},
     {"property": "C20", "name": "import-cycle-through-the-entry-module-is-rejected-or-dies-at-run-time", "keys": sorted(set(entry)),
-     "witness": {"main.er": 'a_ = import "a"\nprint! "init main"\nprint! "main sees a", a_.v\n', "a.er": 'main_ = import "main"\nprint! "init a"\n.v: Int = 1\n'},
-     "what": "a cycle through the entry module is either rejected (attribute of the imported module not visible / accessed before definition) or accepted and the program dies with ModuleNotFoundError: No module named 'main'"},
+     "witness": {"main.er": 'a_ = import "a"\nprint! "init main"\nprint! "main sees a", a_.fv()\n', "a.er": 'main_ = import "main"\nprint! "init a"\n.fv(): Int = 1\n'},
+     "what": "a cycle of two or more modules through the entry module is accepted and the program dies with ModuleNotFoundError: No module named 'main' (the entry module is imported by name at run time), or, for some 3-cycles, is rejected because the inlined member's names are not visible"},
+    {"property": "C20", "name": "self-import-of-an-imported-module-is-bound-to-the-running-script", "keys": sorted(set(selfimp)),
+     "witness": {"main.er": 'a_ = import "a"\nprint! "init main"\nprint! "main via a sees a", a_.f_a()\n', "a.er": 'a_ = import "a"\nprint! "init a"\n.fv(): Int = 1\n.f_a(): Int = a_.fv()\n'},
+     "what": "a module other than the entry that imports itself is accepted, but at run time the self-import names the running script's module object: reading a public name through it raises AttributeError: module '__main__' has no attribute 'fv'"},
 ], "fixed": []}
 json.dump(kf, open("known_findings.d/C20.json", "w"), indent=1)
-print(len(non_entry), "+", len(entry), "keys written;", "NOT listed (triage by hand):", other)
+print(len(set(entry)), "+", len(set(selfimp)), "keys written;", "NOT listed (triage by hand):", other)
